@@ -81,6 +81,54 @@ func lockProtocol(c *Ctx) (bad []lockFinding, good []lockFinding, nMutex int) {
 				}
 			}
 		}
+		// unexported helpers that every caller calls with the mutex held start in the held state
+		for changed := true; changed; {
+			changed = false
+			for _, h := range c.Funcs {
+				if results[h] != nil || h.Object() == nil || h.Object().Exported() || isInit(h) {
+					continue
+				}
+				sites, held := 0, true
+				for caller, lr := range results {
+					for _, b := range caller.Blocks {
+						for _, ins := range b.Instrs {
+							if call, ok := ins.(ssa.CallInstruction); ok && call.Common().StaticCallee() == h {
+								sites++
+								if st := lr.at[ins]; st != lsL && st != lsLD {
+									held = false
+								}
+							}
+						}
+					}
+				}
+				if sites == 0 || !held {
+					continue
+				}
+				// every other call site of the helper must be in an analysed function too
+				all := true
+				for _, caller := range c.Funcs {
+					if results[caller] != nil {
+						continue
+					}
+					for _, b := range caller.Blocks {
+						for _, ins := range b.Instrs {
+							if call, ok := ins.(ssa.CallInstruction); ok && call.Common().StaticCallee() == h {
+								all = false
+							}
+						}
+					}
+				}
+				if !all {
+					continue
+				}
+				lr := analyseLockFrom(h, m, lsLD)
+				results[h] = lr
+				changed = true
+				for _, is := range lr.issues {
+					addBad(is.kind, fmt.Sprintf("%s in %s (%s)", is.kind, fname(h), mname), is.pos, is.msg)
+				}
+			}
+		}
 		// guarded variables
 		for gn, mn := range guardedBy {
 			if mn != mname {
@@ -149,84 +197,142 @@ func cacheProtocol(c *Ctx, fn *ssa.Function, g *ssa.Global, gn string, addBad, a
 		u, ok := v.(*ssa.UnOp)
 		return ok && u.Op == token.MUL && u.X == ssa.Value(g)
 	}
-	// key fields: Store(FieldAddr(alloc, f), param)
-	keyFields := map[int]*ssa.Parameter{}
-	for _, b := range fn.Blocks {
-		for _, ins := range b.Instrs {
-			if st, ok := ins.(*ssa.Store); ok {
-				if fa, ok := st.Addr.(*ssa.FieldAddr); ok {
-					if p, ok := st.Val.(*ssa.Parameter); ok {
-						keyFields[fa.Field] = p
+	// key fields: Store(FieldAddr(alloc, f), param) in fn or in an unexported helper it calls
+	group := withHelpers(c, fn)
+	inGroup := map[*ssa.Function]bool{}
+	for _, f := range group {
+		inGroup[f] = true
+	}
+	keyField := map[int]bool{}
+	for _, f := range group {
+		for _, b := range f.Blocks {
+			for _, ins := range b.Instrs {
+				if st, ok := ins.(*ssa.Store); ok {
+					if fa, ok := st.Addr.(*ssa.FieldAddr); ok {
+						if _, ok := st.Val.(*ssa.Parameter); ok {
+							if _, isAlloc := rootAlloc(fa.X).(*ssa.Alloc); isAlloc {
+								keyField[fa.Field] = true
+							}
+						}
 					}
 				}
 			}
 		}
 	}
-	// blocks in which the key equality is known to hold
-	keyBlocks := map[*ssa.BasicBlock]bool{}
-	for _, b := range fn.Blocks {
-		if len(b.Instrs) == 0 {
-			continue
-		}
-		iff, ok := b.Instrs[len(b.Instrs)-1].(*ssa.If)
-		if !ok {
-			continue
-		}
-		bo, ok := iff.Cond.(*ssa.BinOp)
-		if !ok || (bo.Op != token.EQL && bo.Op != token.NEQ) {
-			continue
-		}
-		match := func(x, y ssa.Value) bool {
-			ld, ok := x.(*ssa.UnOp)
-			if !ok || ld.Op != token.MUL {
-				return false
+	// per function of the group: the blocks in which "(*g).key == one of its parameters" is known to hold
+	type keyInfo struct {
+		blocks map[*ssa.BasicBlock]*ssa.Parameter
+	}
+	infos := map[*ssa.Function]*keyInfo{}
+	for _, f := range group {
+		ki := &keyInfo{blocks: map[*ssa.BasicBlock]*ssa.Parameter{}}
+		infos[f] = ki
+		for _, b := range f.Blocks {
+			if len(b.Instrs) == 0 {
+				continue
 			}
-			fa, ok := ld.X.(*ssa.FieldAddr)
-			if !ok || !isLoadOfG(fa.X) {
-				return false
+			iff, ok := b.Instrs[len(b.Instrs)-1].(*ssa.If)
+			if !ok {
+				continue
 			}
-			p, ok := y.(*ssa.Parameter)
-			return ok && keyFields[fa.Field] == p
-		}
-		if match(bo.X, bo.Y) || match(bo.Y, bo.X) {
-			eq := b.Succs[0]
-			if bo.Op == token.NEQ {
-				eq = b.Succs[1]
+			bo, ok := iff.Cond.(*ssa.BinOp)
+			if !ok || (bo.Op != token.EQL && bo.Op != token.NEQ) {
+				continue
 			}
-			if len(eq.Preds) == 1 {
-				keyBlocks[eq] = true
+			match := func(x, y ssa.Value) *ssa.Parameter {
+				ld, ok := x.(*ssa.UnOp)
+				if !ok || ld.Op != token.MUL {
+					return nil
+				}
+				fa, ok := ld.X.(*ssa.FieldAddr)
+				if !ok || !isLoadOfG(fa.X) || !keyField[fa.Field] {
+					return nil
+				}
+				p, _ := y.(*ssa.Parameter)
+				return p
+			}
+			p := match(bo.X, bo.Y)
+			if p == nil {
+				p = match(bo.Y, bo.X)
+			}
+			if p != nil {
+				eq := b.Succs[0]
+				if bo.Op == token.NEQ {
+					eq = b.Succs[1]
+				}
+				if len(eq.Preds) == 1 {
+					ki.blocks[eq] = p
+				}
 			}
 		}
 	}
-	dominatedByKey := func(b *ssa.BasicBlock) bool {
-		for kb := range keyBlocks {
+	keyParamAt := func(f *ssa.Function, b *ssa.BasicBlock) *ssa.Parameter {
+		for kb, p := range infos[f].blocks {
 			if kb.Dominates(b) {
-				return true
+				return p
 			}
+		}
+		return nil
+	}
+	// returned values: walk phis (and calls of group helpers) to leaves with the block the leaf arrives
+	// from; a load of g must be under the key equality with a parameter that, followed back through the
+	// call chain, is a parameter of fn itself (the requested key)
+	reuse, reuseOK := 0, 0
+	type frame struct {
+		f    *ssa.Function
+		call *ssa.Call
+		up   *frame
+	}
+	requested := func(fr *frame, p *ssa.Parameter) bool {
+		for fr != nil {
+			if fr.up == nil {
+				return true // a parameter of fn
+			}
+			idx := paramIndex(fr.f, p)
+			if idx < 0 || idx >= len(fr.call.Common().Args) {
+				return false
+			}
+			q, ok := fr.call.Common().Args[idx].(*ssa.Parameter)
+			if !ok {
+				return false
+			}
+			p, fr = q, fr.up
 		}
 		return false
 	}
-	// returned values: walk phis to leaves with the block the leaf arrives from
-	reuse, reuseOK := 0, 0
-	var walk func(v ssa.Value, from *ssa.BasicBlock, seen map[ssa.Value]bool, retPos token.Pos)
-	walk = func(v ssa.Value, from *ssa.BasicBlock, seen map[ssa.Value]bool, retPos token.Pos) {
-		if seen[v] {
+	var walk func(fr *frame, v ssa.Value, from *ssa.BasicBlock, seen map[ssa.Value]bool, retPos token.Pos, depth int)
+	walk = func(fr *frame, v ssa.Value, from *ssa.BasicBlock, seen map[ssa.Value]bool, retPos token.Pos, depth int) {
+		if seen[v] || depth > 4 {
 			return
 		}
 		seen[v] = true
 		if phi, ok := v.(*ssa.Phi); ok {
 			for i, e := range phi.Edges {
-				walk(e, phi.Block().Preds[i], seen, retPos)
+				walk(fr, e, phi.Block().Preds[i], seen, retPos, depth)
+			}
+			return
+		}
+		if call, ok := v.(*ssa.Call); ok {
+			if h := call.Common().StaticCallee(); h != nil && inGroup[h] && h != fr.f {
+				for _, b := range h.Blocks {
+					for _, ins := range b.Instrs {
+						if ret, ok := ins.(*ssa.Return); ok {
+							for _, res := range ret.Results {
+								walk(&frame{h, call, fr}, unspill(ret, res), b, map[ssa.Value]bool{}, retPos, depth+1)
+							}
+						}
+					}
+				}
 			}
 			return
 		}
 		if isLoadOfG(v) {
 			reuse++
-			if dominatedByKey(from) {
+			if p := keyParamAt(fr.f, from); p != nil && requested(fr, p) {
 				reuseOK++
 			} else {
 				addBad("stale-reuse", fmt.Sprintf("reuse of %s in %s", gn, fname(fn)), retPos,
-					fmt.Sprintf("the cached entry can be returned on a path on which it was not compared with the requested key (no dominating '(*%s).key == parameter' test): a call for one key can return the table of another, depending on call history", gn))
+					fmt.Sprintf("the cached entry can be returned on a path on which it was not compared with the requested key (no dominating '(*%s).key == parameter' test on the key this call was asked for): a call for one key can return the table of another, depending on call history", gn))
 			}
 		}
 	}
@@ -234,10 +340,13 @@ func cacheProtocol(c *Ctx, fn *ssa.Function, g *ssa.Global, gn string, addBad, a
 		for _, ins := range b.Instrs {
 			if ret, ok := ins.(*ssa.Return); ok {
 				for _, res := range ret.Results {
-					walk(res, b, map[ssa.Value]bool{}, ret.Pos())
+					walk(&frame{fn, nil, nil}, unspill(ret, res), b, map[ssa.Value]bool{}, ret.Pos(), 0)
 				}
 			}
 		}
+	}
+	if reuse == 0 {
+		addBad("no-reuse", fmt.Sprintf("reuse of %s in %s", gn, fname(fn)), fn.Pos(), "no path on which the cached entry is returned was found: the keyed-reuse clause has nothing to check (undecided = fail)")
 	}
 	if reuse > 0 && reuse == reuseOK {
 		addOK("keyed-reuse", fmt.Sprintf("reuse of %s in %s", gn, fname(fn)), fn.Pos(), "the cached entry reaches a return only under a dominating equality between its key field and the requested key")
@@ -251,7 +360,7 @@ func cacheProtocol(c *Ctx, fn *ssa.Function, g *ssa.Global, gn string, addBad, a
 			}
 			obj := st.Val
 			construct := fmt.Sprintf("publication into %s in %s", gn, fname(fn))
-			if _, ok := obj.(*ssa.Alloc); !ok {
+			if _, ok := obj.(*ssa.Alloc); !ok && !returnsFresh(obj, 0) {
 				if cst, ok := obj.(*ssa.Const); ok && cst.Value == nil {
 					continue
 				}
@@ -336,4 +445,60 @@ func r09_2(c *Ctx, r *Report) {
 		}
 		return kinds["unguarded"] && kinds["return-locked"] && kinds["panic-locked"] && kinds["stale-reuse"]
 	})
+}
+
+// returnsFresh: v is the result of a call of a library function every return of which hands back an
+// object that the callee (or, recursively, a function it calls) allocated.
+func returnsFresh(v ssa.Value, depth int) bool {
+	call, ok := v.(*ssa.Call)
+	if !ok || depth > 3 {
+		return false
+	}
+	callee := call.Common().StaticCallee()
+	if callee == nil || callee.Blocks == nil {
+		return false
+	}
+	n := 0
+	for _, b := range callee.Blocks {
+		for _, ins := range b.Instrs {
+			ret, ok := ins.(*ssa.Return)
+			if !ok {
+				continue
+			}
+			if len(ret.Results) != 1 {
+				return false
+			}
+			n++
+			if _, isAlloc := ret.Results[0].(*ssa.Alloc); !isAlloc && !returnsFresh(ret.Results[0], depth+1) {
+				return false
+			}
+		}
+	}
+	return n > 0
+}
+
+// unspill: in a function with a deferred call the results are spilled to a local slot and re-loaded
+// after rundefers; the returned value is then the last value stored to that slot in the returning block.
+func unspill(ret *ssa.Return, v ssa.Value) ssa.Value {
+	ld, ok := v.(*ssa.UnOp)
+	if !ok || ld.Op != token.MUL {
+		return v
+	}
+	slot, ok := ld.X.(*ssa.Alloc)
+	if !ok || slot.Heap {
+		return v
+	}
+	var last ssa.Value
+	for _, ins := range ret.Block().Instrs {
+		if ins == ssa.Instruction(ld) {
+			break
+		}
+		if st, ok := ins.(*ssa.Store); ok && st.Addr == ssa.Value(slot) {
+			last = st.Val
+		}
+	}
+	if last != nil {
+		return last
+	}
+	return v
 }
